@@ -148,6 +148,9 @@ def call_value_helper(h, vals, strict=False):
                 raise SpecError(["MissingVariable"])
             return None
         return r
+    if h == "wr":
+        # harness helper that WRITES the text of its argument: as a subexpression its captured output is the value
+        return render_value(vs[0]) if vs else ""
     if h == "eq":
         return json_eq(vs[0], vs[1])
     if h == "ne":
